@@ -65,6 +65,25 @@ CHECKS = {
         note='Permutations and decorations are sampled by seed (the tokeniser itself is checked exhaustively on the model). Results compared as '
              'report text without date/time lines. Add-on lines keep their relative order as the property allows.',
         tech='TLA+ tokeniser spec (InputFile.tla) model-checked with TLC; TLC-generated files replayed into code; TLC validation of run histories (TraceHistory.tla)'),
+    'C13': dict(
+        cat='model_checking', ref='DESIGN.md section 5 C13',
+        text='MonteCarlo.tla models the pool driver (fork with inherited/reseeded RNG, task take, draw, simulate ok/fail, lock, append, '
+             'release) and TLC explores every assignment and interleaving of 3 workers x 4 tasks with a failing task (C13_distinct, NoReplica, '
+             'C13_rows, termination; the pinned no-reseed design must violate NoReplica); real MC runs of both codes with all five '
+             'distributions and pool sizes 1..16, recorded through guarded worker hooks, are validated by TraceMC.tla: per-process event '
+             'order, support, pairwise distinct continuous vectors, all iterations started, file rows = rows written = simulated-ok iterations.',
+        note='Schedules of the real runs are whatever the OS produces (7 runs quick); interleavings are exhaustive only on the model. Distinct '
+             'stream positions are assumed to give distinct doubles. RNG fingerprints / lock overlap are fit_ observations.',
+        tech='TLA+ concurrent spec (MonteCarlo.tla) model-checked with TLC incl. liveness; TLC trace validation of hooked real runs (TraceMC.tla)'),
+    'C14': dict(
+        cat='model_checking', ref='DESIGN.md section 5 C14',
+        text='Same specification: MutualExclusion, whole rows, isolation of failing tasks over every interleaving (with lock timeouts the model '
+             'shows a dropped row). Real MC runs incl. high-contention HIP-RA-X (120 ms-scale iterations on 16 workers) and 40 % failing '
+             'iterations: every row is re-simulated from its recorded samples through the real simulator; TraceMC.tla checks column order, '
+             'own-sample, replay token equality, rows whole and complete, and recomputes min/max/median/mean/std exactly (rationals) against '
+             'the JSON summary and the text block.',
+        note='Row atomicity relies on single-write appends (observed, not proved; pylocker is third party). std compared via exact population variance.',
+        tech='TLA+ concurrent spec (MonteCarlo.tla) model-checked with TLC; TLC trace validation with exact-rational statistics and row re-simulation'),
     'C16': dict(
         cat='model_checking', ref='DESIGN.md section 5 C16',
         text='Schedule.tla is model-checked exhaustively over small schedules (all lifetimes<=4/6, start years, durations, '
